@@ -40,7 +40,7 @@ class Report:
         """site: function / call site; klass: minimal input class (used to match known findings)"""
         for k in self.known:
             if k.get('status', 'open') != 'open': continue
-            if k.get('site') == site and fnmatch.fnmatch(klass, k.get('class', '*')):
+            if k.get('site') == site and (klass in k['classes'] if 'classes' in k else fnmatch.fnmatch(klass, k.get('class', '*'))):
                 if k['id'] not in [h['id'] for h in self.known_hits]:
                     self.known_hits.append({'id': k['id'], 'site': site, 'class': klass, 'what': k.get('what', detail)})
                 return False
